@@ -33,7 +33,12 @@ pub fn parse_ignore(source: &Path, config: &Config) -> Result<Option<Gitignore>>
         // Only read a regular file; opening e.g. a FIFO of that name
         // would block forever.
         if gifile.is_file() {
-            builder.add(&gifile);
+            // add() reports lines it could not read or parse (and
+            // stops reading at undecodable bytes); carrying on would
+            // silently copy things the file excludes.
+            if let Some(err) = builder.add(&gifile) {
+                return Err(err.into());
+            }
         }
         let ignore = builder.build()?;
         Some(ignore)
